@@ -187,22 +187,73 @@ def r114(ctx, fx):
     if ao is None:
         ctx.fail_closed(rid, "address_to_offset not found")
     else:
-        ok = False
-        for o in lib.owned(fx, ao):
-            pass
+        # both bounds are tested somewhere in the lookup (one `&&`, or the lower bound in a partition_point over the ordered list and the upper one in the
+        # search that follows): start <= pc ≡ Le(start, pc), pc < end ≡ Lt(pc, end) after normalisation; `(start..end).contains(&pc)` is both
+        lower = upper = False
+        other = []
         for n in lib.hwalk(ao.hir["body"]):
-            if n.get("k") == "binary" and n["op"] == "And":
+            if n.get("k") == "binary" and n["op"] in ("Lt", "Le", "Gt", "Ge"):
                 d = lib.hdesc(n)
-                r = repr(d)
-                if "'Le'" in r and "'Lt'" in r and "'start'" in r and "'end'" in r:
-                    # pc >= start  ≡ Le(start, pc) ; pc < end ≡ Lt(pc, end)
-                    parts = [d[1], d[2]]
-                    le = [p for p in parts if p[0] == "Le"]
-                    lt = [p for p in parts if p[0] == "Lt"]
-                    if le and lt and "'start'" in repr(le[0][1]) and "'end'" in repr(lt[0][2]):
-                        ok = True
-        if not ok:
+                if d[0] == "Le" and "'start'" in repr(d[1]) and "'start'" not in repr(d[2]) and "'end'" not in repr(d):
+                    lower = True
+                elif d[0] == "Lt" and "'end'" in repr(d[2]) and "'end'" not in repr(d[1]) and "'start'" not in repr(d):
+                    upper = True
+                elif "'start'" in repr(d) or "'end'" in repr(d):
+                    other.append(d[0])
+            if n.get("k") == "mcall" and n.get("name") == "contains" and (lib.strip(n["recv"]).get("ty") or "").find("Range<") >= 0:
+                lower = upper = True
+        if not (lower and upper) or other:
             ctx.finding(rid, sm + "address_to_offset", "address lookup must test start <= pc < end", ao.where)
+
+
+def r119(ctx, fx):
+    rid = ctx.rule("R11.9", "the code generator addresses source-map entries by position — `offsets().len()` before a macro body is emitted, move_offsets(first, ..) after "
+                   "it re-attributes everything from that position on to the invocation: as long as it does, the source map only ever appends (push) and empties "
+                   "(clear); an entry inserted in the middle, a sort, a removal make `first..` name entries of other statements, and their bytes are listed under the "
+                   "invocation")
+    users = []
+    for f in fx.all_fns("mos_core"):
+        if "::tests::" in f.path or not f.d.get("hir") or f.path.startswith("mos_core::codegen::source_map::"):
+            continue
+        marks = set()
+        for n in lib.hwalk(f.hir["body"]):
+            if n.get("k") == "let" and "init" in n and any(x.get("k") == "mcall" and x.get("name") == "len" and any(
+                    y.get("k") == "mcall" and y.get("name") == "offsets" for y in lib.hwalk(x["recv"])) for x in lib.hwalk(n["init"])):
+                marks |= {q["name"] for q in lib.hwalk(n["pat"]) if q.get("k") == "bind"}
+        for n in lib.hwalk(f.hir["body"]):
+            if n.get("k") == "mcall" and n.get("name") == "move_offsets" and any(lib.hpath(lib.strip(a)) in marks for a in n.get("args") or []):
+                users.append((f, n.get("ln")))
+    ctx.inst(rid, "positional-marker", sample={"uses": [("%s:%s" % (f.path, ln)) for f, ln in users]})
+    if not users:
+        # nothing relies on positions any more: the rule has nothing to protect
+        return
+    REORDER = ("insert", "sort", "sort_by", "sort_by_key", "sort_unstable", "sort_unstable_by", "sort_unstable_by_key", "sort_by_cached_key", "swap", "remove",
+               "swap_remove", "retain", "retain_mut", "drain", "dedup", "dedup_by", "dedup_by_key", "reverse", "rotate_left", "rotate_right", "splice", "split_off",
+               "truncate", "pop")
+    n_fns = 0
+    j = 0
+    for f in sorted(fx.all_fns("mos_core"), key=lambda f: f.path):
+        if "::tests::" in f.path or not f.d.get("hir"):
+            continue
+        hit = False
+        for n in lib.hwalk(f.hir["body"]):
+            if n.get("k") == "mcall":
+                r = lib.strip(n["recv"])
+                on_offsets = r.get("k") == "field" and r.get("name") == "offsets" and "SourceMapOffset" in str(r.get("ty", "") + str(r.get("aty", "")))
+                if on_offsets:
+                    hit = True
+                    key = "%s|%s" % (f.path, n.get("name"))
+                    ctx.inst(rid, key, sample={"fn": f.path, "method": n.get("name"), "line": n.get("ln")})
+                    if n.get("name") in REORDER:
+                        j += 1
+                        ctx.finding(rid, "%s|reorders#%d" % (key, j),
+                                    "%s changes the positions of source-map entries (`offsets.%s`), but a macro invocation remembers a position (`offsets().len()`, %s) "
+                                    "and re-attributes everything behind it: entries of other statements end up there, and a listing shows their bytes on the "
+                                    "invocation's line" % (f.path.rsplit("::", 1)[-1], n.get("name"), "%s:%s" % (users[0][0].file, users[0][1])),
+                                    "%s:%s" % (f.file, n.get("ln")))
+        n_fns += hit
+    if n_fns < 3:
+        ctx.fail_closed(rid, "fewer than 3 functions that work on SourceMap.offsets found (%d)" % n_fns)
 
 
 def r115(ctx, fx, cg):
@@ -533,6 +584,7 @@ def run(ctx):
     r116(ctx, fx)
     r117(ctx, fx)
     r118(ctx, fx)
+    r119(ctx, fx)
     r112(ctx, fx)
     r113(ctx, fx, cg)
     r114(ctx, fx)
